@@ -144,5 +144,40 @@ let handle = function
              Printf.sprintf "%d=%s@%s" (int_of_n c) r wire in
            (if order = "" then "-" else order) ^ " | " ^ String.concat " " (List.map cls callers)
        | Panic _ -> "Panic" | Err _ -> "Err" | OutOfFuel -> "OutOfFuel")
+  | ["lbl"; mb; opt; ids] ->
+      (* load balancer with no upstream (x), one upstream without burst limit (n) or with max_burst <mb>;
+         requests with the given IDs inside one burst interval; U = went upstream, L:.. = the local answer *)
+      let ups = (match mb with "x" -> [] | "n" -> [(None, N0)] | v -> [(Some (ni v), N0)]) in
+      let idl = List.map int_of_string (String.split_on_char ',' ids) in
+      let routes = c15_lb_run ups (List.map (fun _ -> O) idl) in
+      String.concat " " (List.map2 (fun id r -> match r with
+        | Some _ -> "U"
+        | None -> let m = c15_lb_local (n_of_int id) false [n_of_int 0] (opt = "1") in
+                  Printf.sprintf "L:%d:%d:%d:%d:%d:%d:%s" (int_of_n m.m_id) (if m.m_qr then 1 else 0) (int_of_n m.m_rcode)
+                    (int_of_n m.m_qd) (int_of_n m.m_an) (int_of_n m.m_ar) (if m.m_qs = Some [n_of_int 0] then "same" else "other")) idl routes)
+  | ["msr"; t; script] ->
+      (* multi_stream request against scripted connection attempts: f<d> connect fails after d ms;
+         k<d>:R<e> connects after d, reply after e; W wrong reply; X other error; C connection closed; S silent;
+         a trailing * repeats the last attempt for ever *)
+      let toks = String.split_on_char '|' script in
+      let parse tk =
+        let tk = if tk.[String.length tk - 1] = '*' then String.sub tk 0 (String.length tk - 1) else tk in
+        match tk.[0] with
+        | 'f' -> CFail (ni (String.sub tk 1 (String.length tk - 1)))
+        | 'k' -> (match String.split_on_char ':' (String.sub tk 1 (String.length tk - 1)) with
+                  | [d; r] -> let e () = ni (String.sub r 1 (String.length r - 1)) in
+                      COk (ni d, (match r.[0] with 'R' -> SReply (e ()) | 'W' -> SWrong (e ()) | 'X' -> SFail (e ())
+                                                   | 'C' -> SClosed (e ()) | 'S' -> SSilent | _ -> failwith "bad fate"))
+                  | _ -> failwith "bad attempt")
+        | _ -> failwith "bad attempt" in
+      let atts = List.map parse toks in
+      let last = List.nth toks (List.length toks - 1) in
+      let atts = if last.[String.length last - 1] = '*' then atts @ List.init 300 (fun _ -> parse last) else atts in
+      let show = function MOk t -> Printf.sprintf "Ok %d" (int_of_n t) | MErrWrong t -> Printf.sprintf "Err wrong %d" (int_of_n t)
+                        | MErrTimeout t -> Printf.sprintf "Err timeout %d" (int_of_n t) in
+      let r0 = c15_ms_request (ni t) atts (List.init 400 (fun _ -> N0)) in
+      let r1 = c15_ms_request (ni t) atts (List.init 400 (fun _ -> n_of_int 100000000)) in
+      let r2 = c15_ms_request (ni t) atts (List.init 400 (fun k -> n_of_int (137 * (k + 1)))) in
+      if r0 = r1 && r1 = r2 then show r0 else "NONDET " ^ show r0 ^ " / " ^ show r1
   | _ -> failwith "bad case line"
 let () = main handle
